@@ -84,6 +84,7 @@ func runC11(tier string, r *rng) {
 	}
 	c11Gossip()
 	c11Sequence()
+	c11Lifecycle(r)
 	for _, restarts := range []int{0, 1, 2, -1} {
 		c11Restart(restarts)
 	}
@@ -428,4 +429,89 @@ func c11Sequence() {
 			break
 		}
 	}
+}
+
+// c11Lifecycle: sequences of Start / Stop / Subscribe / Cancel on a real Subscriber over a real gossipsub instance; each
+// call's error / no error is compared with the model (P2P.Lifecycle), and at the end a header the verifier rejects is
+// broadcast: it must be refused whatever the life cycle was.
+func c11Lifecycle(r *rng) {
+	fixed := [][]string{
+		{"start", "subscribe", "stop"}, {"start", "subscribe", "stop", "start"}, {"start", "stop", "start", "subscribe"},
+		{"start", "subscribe", "stop", "cancel", "stop", "start"}, {"start", "start"}, {"start", "stop", "stop"},
+		{"start", "subscribe", "subscribe", "cancel", "stop", "cancel", "stop", "start", "subscribe"},
+	}
+	for i := 0; i < 25; i++ {
+		seq := []string{"start"}
+		for j := 0; j < 2+r.intn(6); j++ {
+			seq = append(seq, []string{"start", "stop", "subscribe", "cancel", "subscribe", "stop"}[r.intn(6)])
+		}
+		fixed = append(fixed, seq)
+	}
+	for _, seq := range fixed {
+		c11LifecycleOne(seq)
+	}
+}
+
+func c11LifecycleOne(seq []string) {
+	ctx, cancel := context.WithTimeout(context.Background(), 10*time.Second)
+	defer cancel()
+	mn, err := mocknet.FullMeshLinked(1)
+	if err != nil {
+		panic(err)
+	}
+	defer mn.Close()
+	ps, err := pubsub.NewGossipSub(ctx, mn.Hosts()[0], pubsub.WithMessageSignaturePolicy(pubsub.StrictNoSign))
+	if err != nil {
+		panic(err)
+	}
+	sub, err := p2p.NewSubscriber[*vhdr.Header](ps, pubsub.DefaultMsgIdFn, p2p.WithSubscriberNetworkID(peers.NetworkID))
+	if err != nil {
+		panic(err)
+	}
+	_ = sub.SetVerifier(func(context.Context, *vhdr.Header) error {
+		return &header.VerifyError{Reason: errors.New("scripted hard failure")}
+	})
+	chain := vhdr.Chain("A", 2, time.Now().Add(-time.Minute).UnixNano(), 1e9, 0)
+	var open []header.Subscription[*vhdr.Header]
+	var results []string
+	var ops []string
+	for _, op := range seq {
+		var e error
+		switch op {
+		case "start":
+			e = sub.Start(ctx)
+		case "stop":
+			e = sub.Stop(ctx)
+		case "subscribe":
+			var s header.Subscription[*vhdr.Header]
+			s, e = sub.Subscribe()
+			if e == nil {
+				open = append(open, s)
+			}
+		case "cancel":
+			if len(open) == 0 {
+				continue // nothing to cancel: not a call
+			}
+			open[len(open)-1].Cancel()
+			open = open[:len(open)-1]
+		}
+		ops = append(ops, op)
+		results = append(results, map[bool]string{true: "ok", false: "err"}[e == nil])
+	}
+	probe := "refused"
+	func() {
+		defer func() {
+			if recover() != nil {
+				probe = "CRASH"
+			}
+		}()
+		if err := sub.Broadcast(ctx, chain[0]); err == nil {
+			probe = "published"
+		}
+	}()
+	for _, s := range open {
+		s.Cancel()
+	}
+	_ = sub.Stop(ctx)
+	emit("C11 kind=lifecycle ops=%s => results=%s probe=%s", strings.Join(ops, ","), strings.Join(results, ","), probe)
 }
